@@ -370,6 +370,33 @@ pub fn cases(seed: u64, tier: Tier) -> Cases {
             negotiate_case(&mut cs, "fixed", o, &[f.to_string()]);
         }
     }
+    // every way of making a runtime without naming encodings registers JSON (the default) and Smile
+    for (how, make) in [("ConjureRuntime::new()", (|| ConjureRuntime::new()) as fn() -> ConjureRuntime), ("ConjureRuntime::default()", || ConjureRuntime::default()), ("ConjureRuntime::builder().build()", || ConjureRuntime::builder().build())] {
+        let r = guarded(move || {
+            let rt = make();
+            let mut out = vec![];
+            for accept in [None, Some("application/json"), Some("application/x-jackson-smile"), Some("*/*"), Some("text/plain")] {
+                let mut h = HeaderMap::new();
+                if let Some(a) = accept {
+                    h.insert(ACCEPT, HeaderValue::from_static(a));
+                }
+                out.push(format!("Accept {:?} -> {:?}", accept, rt.response_body_encoding(&h).ok().map(|e| String::from_utf8_lossy(e.content_type().as_bytes()).to_string())));
+            }
+            for ct in ["application/json", "application/x-jackson-smile", "text/plain"] {
+                let mut h = HeaderMap::new();
+                h.insert(CONTENT_TYPE, HeaderValue::from_static(ct));
+                out.push(format!("Content-Type {:?} -> {:?}", ct, rt.request_body_encoding(&h).ok().map(|e| String::from_utf8_lossy(e.content_type().as_bytes()).to_string())));
+            }
+            out.join("; ")
+        });
+        let want = "Accept None -> Some(\"application/json\"); Accept Some(\"application/json\") -> Some(\"application/json\"); Accept Some(\"application/x-jackson-smile\") -> Some(\"application/x-jackson-smile\"); Accept Some(\"*/*\") -> Some(\"application/json\"); Accept Some(\"text/plain\") -> None; Content-Type \"application/json\" -> Some(\"application/json\"); Content-Type \"application/x-jackson-smile\" -> Some(\"application/x-jackson-smile\"); Content-Type \"text/plain\" -> None";
+        cs.push("default-runtime", "noop".into(), "noop".into(), true, format!("the encodings of {}", how));
+        match r {
+            Ok(got) if got == want => {}
+            Ok(got) => cs.fail_last("default-runtime:encodings", format!("{} negotiates {}", how, got)),
+            Err(p) => cs.fail_last("default-runtime:panic", p),
+        }
+    }
     for o in orders {
         negotiate_case(&mut cs, "no-accept", o, &[]);
     }
